@@ -400,3 +400,247 @@ Proof.
   apply keyed_rows_Forall2; auto.
   intros k v Ha. pose proof (ag_getk _ _ Hag _ Hks k) as H. now rewrite Ha in H.
 Qed.
+
+(* ---------- iter_ unfolding equations ---------- *)
+Lemma iter_catch_f E d :
+  iter_ false (DCatch E d) = with_res (len_ d) (fun n => loop_catch E (get_i d) (zseq n)).
+Proof. reflexivity. Qed.
+Lemma iter_catch_t E d :
+  iter_ true (DCatch E d) = with_res (keys_ d) (fun ks => loop_catch E (fun k => keyed k (get_k d k)) ks).
+Proof. reflexivity. Qed.
+Lemma iter_slice_f idx d :
+  iter_ false (DSlice idx d) = loop_get (fun j => get_i d (Z.of_nat j)) idx.
+Proof. reflexivity. Qed.
+Lemma iter_slice_t idx d :
+  iter_ true (DSlice idx d) =
+  with_res (keys_ d) (fun ks => loop_get (fun j => do k <- nth_key ks j; keyed k (get_i d (Z.of_nat j))) idx).
+Proof. reflexivity. Qed.
+Lemma iter_cache_f d :
+  iter_ false (DCache d) = with_res (len_ d) (fun n => loop_get (get_i (DCache d)) (zseq n)).
+Proof. reflexivity. Qed.
+Lemma iter_cache_t d :
+  iter_ true (DCache d) =
+  with_res (keys_ d) (fun ks => with_res (len_ d) (fun n =>
+    loop_get (fun j => do k <- py_nth ks (Z.of_nat j); keyed k (get_i (DCache d) (Z.of_nat j))) (seq 0 n))).
+Proof. reflexivity. Qed.
+Lemma iter_prefetch w b E d wk :
+  iter_ wk (DPrefetch w b E d) =
+  if (w =? 1)%nat then
+    match E with
+    | Some E =>
+        if wk then conv_items (with_res (keys_ d) (fun ks => loop_catch E (fun k => keyed k (get_k d k)) ks))
+        else with_res (len_ d) (fun n => loop_catch E (get_i d) (zseq n))
+    | None => if wk then conv_items (iter_ true d) else iter_ false d
+    end
+  else
+    if wk then ([], Raised (lib ENotImpl))
+    else with_res (len_ d) (fun n =>
+           match E with
+           | Some E => loop_catch E (get_i d) (zseq n)
+           | None => loop_get (get_i d) (zseq n)
+           end).
+Proof. destruct wk; reflexivity. Qed.
+
+(* ---------- the index loops over an input that agrees with its table ---------- *)
+Lemma idx_of_ixok d t :
+  agrees d t -> ixok d = true -> len_ d = Ok (length t) /\ forall i, get_i d i = py_nth (vals t) i.
+Proof. intros Hag Hix. destruct (ixok_split _ Hix). now apply (ag_idx _ _ Hag). Qed.
+
+Lemma catch_loop_idx E d t :
+  agrees d t -> ixok d = true ->
+  with_res (len_ d) (fun n => loop_catch E (get_i d) (zseq n)) = (vals t, End).
+Proof.
+  intros Hag Hix. destruct (idx_of_ixok _ _ Hag Hix) as [Hlen Hget].
+  rewrite Hlen. unfold with_res. rewrite <- (vals_length t).
+  now apply loop_catch_zseq_py_nth.
+Qed.
+
+Lemma get_loop_idx d t :
+  agrees d t -> ixok d = true ->
+  with_res (len_ d) (fun n => loop_get (get_i d) (zseq n)) = (vals t, End).
+Proof.
+  intros Hag Hix. destruct (idx_of_ixok _ _ Hag Hix) as [Hlen Hget].
+  rewrite Hlen. unfold with_res. rewrite <- (vals_length t).
+  now apply loop_get_zseq_py_nth.
+Qed.
+
+Lemma catch_loop_keys E d t :
+  agrees d t -> keys_ok d = true ->
+  with_res (keys_ d) (fun ks => loop_catch E (fun k => keyed k (get_k d k)) ks) = (pairs t, End).
+Proof.
+  intros Hag Hk. destruct (keys_ok_inv _ Hk) as [ks Hks].
+  rewrite Hks. unfold with_res. apply loop_catch_Forall2. eapply agrees_keyed_loop; eauto.
+Qed.
+
+(* ================================================================== DCatch *)
+Lemma stage_catch E d : stage_ok d -> stage_ok (DCatch E d).
+Proof.
+  intros IH Hwf t Ht.
+  change (wfb d = true) in Hwf.
+  change (tbl (DCatch E d)) with (if ixok d then tbl d else None) in Ht.
+  destruct (ixok d) eqn:Hix; [|discriminate].
+  specialize (IH Hwf t Ht).
+  constructor.
+  - rewrite iter_catch_f. now apply catch_loop_idx.
+  - intros Hkb. change (keys_ok d = true) in Hkb.
+    rewrite iter_catch_t. now apply catch_loop_keys.
+  - intros m H. discriminate H.
+  - intros H. discriminate H.
+  - intros ks H. discriminate H.
+  - intros ks H. discriminate H.
+Qed.
+
+(* ================================================================== DCache *)
+Lemma get_i_cache_agrees d t :
+  agrees d t -> ixok d = true -> forall i, get_i (DCache d) i = py_nth (vals t) i.
+Proof.
+  intros Hag Hix i. destruct (idx_of_ixok _ _ Hag Hix) as [Hlen Hget].
+  rewrite get_i_cache, Hlen, <- (vals_length t).
+  transitivity (do j <- norm_neg i (Ok (length (vals t))); py_nth (vals t) j);
+    [|apply norm_neg_py_nth].
+  destruct (norm_neg i (Ok (length (vals t)))); simpl; auto.
+Qed.
+
+Lemma stage_cache d : stage_ok d -> stage_ok (DCache d).
+Proof.
+  intros IH Hwf t Ht.
+  change (wfb d = true) in Hwf.
+  change (tbl (DCache d)) with (if ixok d then tbl d else None) in Ht.
+  destruct (ixok d) eqn:Hix; [|discriminate].
+  specialize (IH Hwf t Ht).
+  destruct (idx_of_ixok _ _ IH Hix) as [Hlen Hget].
+  pose proof (get_i_cache_agrees _ _ IH Hix) as Hgc.
+  constructor.
+  - rewrite iter_cache_f, Hlen. unfold with_res. rewrite <- (vals_length t).
+    now apply loop_get_zseq_py_nth.
+  - intros Hkb. change (keys_ok d = true) in Hkb.
+    destruct (keys_ok_inv _ Hkb) as [ks Hks].
+    destruct (ag_keys _ _ IH _ Hks) as (_ & -> & _).
+    rewrite iter_cache_t, Hks, Hlen. unfold with_res, pairs.
+    apply loop_get_seq. intros j kv Hj.
+    destruct (nth_error_row _ _ _ Hj) as [H1 H2].
+    rewrite (py_nth_of_nat_some _ _ _ H1). unfold bind at 1.
+    rewrite Hgc, (py_nth_of_nat_some _ _ _ H2). reflexivity.
+  - intros m H. change (len_ d = Ok m) in H. now apply (ag_len _ _ IH).
+  - intros _ _. split; [exact Hlen | exact Hgc].
+  - intros ks Hks. change (keys_ d = Ok ks) in Hks.
+    destruct (ag_keys _ _ IH _ Hks) as (_ & -> & Hf & Hi & Hk).
+    repeat split; auto.
+    change (keys_ok d = true). eapply keys_ok_intro; eauto.
+  - intros ks Hks k. change (keys_ d = Ok ks) in Hks.
+    destruct (ag_keys _ _ IH _ Hks) as (_ & Hkeq & _).
+    rewrite get_k_cache, Hks. unfold bind. subst ks.
+    pose proof (index_of_assoc k t) as Hio.
+    destruct (assoc k t) as [v|].
+    + destruct Hio as (j & Hj & Hn). rewrite Hj, Hget. now apply py_nth_of_nat_some.
+    + rewrite Hio. eexists. reflexivity.
+Qed.
+
+(* ================================================================== DPrefetch *)
+Lemma conv_items_End l : conv_items (l, End) = (l, End).
+Proof. reflexivity. Qed.
+
+Lemma stage_prefetch w b E d : stage_ok d -> stage_ok (DPrefetch w b E d).
+Proof.
+  intros IH Hwf t Ht.
+  change (wfb d = true) in Hwf.
+  change (tbl (DPrefetch w b E d)) with
+    (if (w =? 1)%nat then (match E with Some _ => if ixok d then tbl d else None | None => tbl d end)
+     else if ixok d then tbl d else None) in Ht.
+  assert (Hkb : keyedb (DPrefetch w b E d) =
+                if (w =? 1)%nat then (match E with Some _ => keys_ok d | None => keyedb d end) else false)
+    by reflexivity.
+  assert (Hl : len_ (DPrefetch w b E d) = match E with Some _ => Err (lib EType) | None => len_ d end)
+    by reflexivity.
+  destruct (w =? 1)%nat eqn:Hw; [destruct E as [E'|]|].
+  - (* single thread, catching *)
+    destruct (ixok d) eqn:Hix; [|discriminate].
+    specialize (IH Hwf t Ht).
+    constructor.
+    + rewrite iter_prefetch, Hw. now apply catch_loop_idx.
+    + rewrite Hkb. intros Hk. rewrite iter_prefetch, Hw.
+      rewrite (catch_loop_keys E' _ _ IH Hk). apply conv_items_End.
+    + intros m H. rewrite Hl in H. discriminate H.
+    + intros H. discriminate H.
+    + intros ks H. discriminate H.
+    + intros ks H. discriminate H.
+  - (* single thread, no catch: forwards the input's iterator *)
+    specialize (IH Hwf t Ht).
+    constructor.
+    + rewrite iter_prefetch, Hw. apply (ag_iter _ _ IH).
+    + rewrite Hkb. intros Hk. rewrite iter_prefetch, Hw.
+      rewrite (ag_iterk _ _ IH Hk). apply conv_items_End.
+    + intros m H. rewrite Hl in H. now apply (ag_len _ _ IH).
+    + intros H. discriminate H.
+    + intros ks H. discriminate H.
+    + intros ks H. discriminate H.
+  - (* threaded *)
+    destruct (ixok d) eqn:Hix; [|discriminate].
+    specialize (IH Hwf t Ht).
+    constructor.
+    + rewrite iter_prefetch, Hw.
+      destruct E as [E'|]; [now apply catch_loop_idx | now apply get_loop_idx].
+    + rewrite Hkb. intros H. discriminate H.
+    + intros m H. rewrite Hl in H. destruct E; [discriminate H | now apply (ag_len _ _ IH)].
+    + intros H. discriminate H.
+    + intros ks H. discriminate H.
+    + intros ks H. discriminate H.
+Qed.
+
+(* ================================================================== DSlice *)
+Lemma stage_slice idx d : stage_ok d -> stage_ok (DSlice idx d).
+Proof.
+  intros IH Hwf t Ht.
+  change (wfb d = true) in Hwf.
+  change (tbl (DSlice idx d)) with (if ixok d then obind (tbl d) (select idx) else None) in Ht.
+  destruct (ixok d) eqn:Hix; [|discriminate].
+  destruct (tbl d) as [t0|] eqn:Ht0; [|discriminate].
+  simpl in Ht. rename Ht into Hsel.
+  specialize (IH Hwf t0 Ht0).
+  destruct (idx_of_ixok _ _ IH Hix) as [Hlen Hget].
+  destruct (ixok_split _ Hix) as [Hi Hk].
+  assert (HFv : Forall2 (fun j v => nth_error (vals t0) j = Some v) idx (vals t))
+    by (apply select_Forall2, select_map, Hsel).
+  assert (Hkeys : forall ks', keys_ (DSlice idx d) = Ok ks' ->
+                  keys_ d = Ok (map fst t0) /\ ks' = map fst t /\ functional t0).
+  { intros ks' H. rewrite keys_slice in H.
+    destruct (keys_ d) as [ks|] eqn:Hks; [|discriminate H].
+    destruct (ag_keys _ _ IH _ Hks) as (_ & -> & Hf & _).
+    unfold bind in H.
+    rewrite (mapM_nth_key_select _ _ _ (select_map fst _ _ _ Hsel)) in H.
+    injection H as <-. auto. }
+  constructor.
+  - rewrite iter_slice_f. apply loop_get_Forall2.
+    eapply Forall2_impl'; [|exact HFv]. intros j v H. simpl.
+    rewrite Hget. now apply py_nth_of_nat_some.
+  - intros Hkb. change (keys_ok d = true) in Hkb.
+    destruct (keys_ok_inv _ Hkb) as [ks Hks].
+    destruct (ag_keys _ _ IH _ Hks) as (_ & -> & _).
+    rewrite iter_slice_t, Hks. unfold with_res, pairs.
+    apply loop_get_Forall2, Forall2_map_r.
+    eapply Forall2_impl'; [|apply select_Forall2, Hsel]. intros j kv Hj. simpl.
+    destruct (nth_error_row _ _ _ Hj) as [H1 H2].
+    rewrite (nth_key_some _ _ _ H1). unfold bind at 1.
+    rewrite Hget, (py_nth_of_nat_some _ _ _ H2). reflexivity.
+  - intros m H. simpl in H. injection H as <-. symmetry. eapply select_length; eauto.
+  - intros _ _. split.
+    + simpl. f_equal. symmetry. eapply select_length; eauto.
+    + intros i. rewrite get_i_slice.
+      destruct (py_nth_Forall2 _ idx (vals t) i HFv) as [[H1 H2]|(j & v & H1 & H2 & HR)];
+        rewrite H1, H2; unfold bind; [reflexivity|].
+      rewrite Hget. now apply py_nth_of_nat_some.
+  - intros ks' H. destruct (Hkeys _ H) as (Hks & -> & Hf).
+    split; [|split; [|split; [|split]]].
+    + change (keys_ok d = true). eapply keys_ok_intro; eauto.
+    + reflexivity.
+    + eapply functional_select; eauto.
+    + reflexivity.
+    + exact Hk.
+  - intros ks' H k. destruct (Hkeys _ H) as (Hks & -> & Hf).
+    rewrite get_k_slice, H. unfold bind. rewrite inb_map_fst_assoc.
+    destruct (assoc k t) as [v|] eqn:Ha.
+    + apply assoc_some_In in Ha. apply (select_In _ _ _ Hsel) in Ha.
+      apply (functional_assoc _ _ _ Hf) in Ha.
+      pose proof (ag_getk _ _ IH _ Hks k) as Hg. now rewrite Ha in Hg.
+    + eexists. reflexivity.
+Qed.
